@@ -49,7 +49,7 @@ func (c *ctx) buildPlan(n int) []planned {
 			// OCRA with messages shorter and longer than the pooled buffer
 			var sa suiteArg
 			if c.rng.Intn(2) == 0 && len(names) > 0 {
-				x, err := rawSuiteArg(names[c.rng.Intn(len(names))])
+				x, err := rawSuiteArg(c.pickName(names))
 				if err != nil {
 					continue
 				}
@@ -69,7 +69,7 @@ func (c *ctx) buildPlan(n int) []planned {
 		case 8:
 			name := c.grammarName()
 			if len(names) > 0 && c.rng.Intn(2) == 0 {
-				name = names[c.rng.Intn(len(names))]
+				name = c.pickName(names)
 			}
 			plan = append(plan, planned{func(scn string) Event { return doNewRawSuite(scn, name, false) }})
 		default:
@@ -81,7 +81,7 @@ func (c *ctx) buildPlan(n int) []planned {
 	for b := 0; b < 3; b++ {
 		var sa suiteArg
 		if b%2 == 0 && len(names) > 0 {
-			x, err := rawSuiteArg(names[c.rng.Intn(len(names))])
+			x, err := rawSuiteArg(c.pickName(names))
 			if err != nil {
 				continue
 			}
